@@ -638,7 +638,8 @@ theorem inv3_rdNext {s s' : St} {t r v : Nat} (h1 : Inv1 s) (h3 : Inv3 s)
     · intro a b
       apply hl.bound _ (by simp [Pc.joined])
       cases c <;> simp_all [Pc.quiet]
-    · rw [ScanOk_walk_congr rfl rfl rfl (joined_setPc hpc rfl)]
+    · have hj := joined_setPc (p' := .scanWalk c h cap (s.next (cur - 1)) 0 pl ((cur - 1) :: walked)) hpc rfl
+      rw [ScanOk_walk_congr (s := s) (s' := setPc s t _) rfl rfl rfl hj]
       obtain ⟨a1, a2, a3, a4, a5, a6, a7, a8⟩ := hl.scan
       have hr : cur - 1 ∈ s.recs := by rcases a3 with e | e; exact absurd e hc0; exact e
       have hch := h1.nxt _ hr
@@ -654,9 +655,14 @@ theorem inv3_rdNext {s s' : St} {t r v : Nat} (h1 : Inv1 s) (h3 : Inv3 s)
           simp [jcount, List.countP_cons]
         rw [hj]
         simp only [hc0, ne_eq, not_false_eq_true, true_and] at a8
+        have hz : (if s.next (cur - 1) ≠ 0 ∧ (s.pc (s.next (cur - 1) - 1)).joined = true then 0 else 0) = 0 := by
+          split <;> rfl
+        rw [hz]
         split at a8
         · next hjn => simp only [hjn, if_true, Nat.mul_add, Nat.mul_one]; omega
-        · next hjn => simp only [hjn]; omega
+        · next hjn =>
+          have : (s.pc (cur - 1)).joined = false := by simpa using hjn
+          simp only [this, Bool.false_eq_true, if_false, Nat.add_zero]; omega
 
 theorem inv3_rdHp {s s' : St} {t r i v : Nat} (h2 : Inv2 s) (h3 : Inv3 s)
     (hs : stepRdHp s t r i v = some s') : Inv3 s' := by
@@ -677,7 +683,9 @@ theorem inv3_rdHp {s s' : St} {t r i v : Nat} (h2 : Inv2 s) (h3 : Inv3 s)
   · intro a b
     apply hl.bound _ (by simp [Pc.joined])
     cases c <;> simp_all [Pc.quiet]
-  · rw [ScanOk_walk_congr rfl rfl rfl (joined_setPc hpc rfl)]
+  · have hj := joined_setPc (p' := .scanWalk c h cap cur (i + 1)
+      (if s.hp (cur - 1) i = 0 then pl else pl ++ [s.hp (cur - 1) i]) walked) hpc rfl
+    rw [ScanOk_walk_congr (s := s) (s' := setPc s t _) rfl rfl rfl hj]
     obtain ⟨a1, a2, a3, a4, a5, a6, a7, a8⟩ := hl.scan
     have hlen : (if s.hp (cur - 1) i = 0 then pl else pl ++ [s.hp (cur - 1) i]).length ≤ pl.length + 1 := by
       split <;> simp
@@ -732,7 +740,7 @@ theorem inv3_wrRc {s s' : St} {t r v : Nat} (h1 : Inv1 s) (h3 : Inv3 s)
       have hw : walked.reverse = chain s h := by simpa [chain] using a4
       have hnd : walked.Nodup := by
         have := h1.chain_nodup (Or.inr a2 : ptrOk s h)
-        rw [← hw] at this; exact List.nodup_reverse.mp this
+        rw [← hw] at this; exact (List.reverse_perm walked).nodup_iff.mp this
       have hsub : ∀ u ∈ walked, u ∈ s.recs := by
         intro u hu
         apply h1.chain_sub (Or.inr a2 : ptrOk s h)
